@@ -33,6 +33,36 @@ pub fn opt<T, F: Fn(&T) -> String>(x: &Option<T>, f: F) -> String {
 pub fn bytes(xs: &[u8]) -> String {
     list(xs, |x| x.to_string())
 }
+/// bytes with runs of >= 12 equal bytes printed as `rep n b` (see Check modules)
+pub fn bytes_rle(xs: &[u8]) -> String {
+    let mut parts: Vec<String> = Vec::new();
+    let mut lit: Vec<u8> = Vec::new();
+    let mut i = 0;
+    while i < xs.len() {
+        let mut j = i;
+        while j < xs.len() && xs[j] == xs[i] {
+            j += 1;
+        }
+        if j - i >= 12 {
+            if !lit.is_empty() {
+                parts.push(bytes(&lit));
+                lit.clear();
+            }
+            parts.push(format!("rep {} {}", j - i, xs[i]));
+        } else {
+            lit.extend_from_slice(&xs[i..j]);
+        }
+        i = j;
+    }
+    if !lit.is_empty() || parts.is_empty() {
+        parts.push(bytes(&lit));
+    }
+    if parts.len() == 1 {
+        parts.pop().unwrap()
+    } else {
+        format!("({})", parts.join(" ++ "))
+    }
+}
 pub fn string(s: &str) -> String {
     bytes(s.as_bytes())
 }
